@@ -412,5 +412,15 @@ def warm(ctx):
         dump(ctx, name, c())
 
 
+def replay(ctx, data):
+    """Re-run a recorded behaviour on the working tree; True if code and
+    specification still disagree."""
+    if "events" not in data.get("replay", {}):
+        return False
+    st, val = forkpool.fork_call(run_events, (data['replay'].get('btime', 10), data['replay']['events']))
+    print("  ->", st, val if st != "ok" else {k: v for k, v in val.items() if k != "event"})
+    return st != "ok" or "mismatch" in val
+
+
 def main(prop, argv):
     core.main_wrapper(check, prop, argv)
